@@ -31,7 +31,7 @@ RULE = ("bundled: every unit/spelling/prefix/dimension/group/system/context/defa
 ASSUMPTIONS = ["R is the oracle for the bundled files (validated against the unchanged tree)", "units added by define() after construction are not asked for compatible-unit listings (known finding, C13)"]
 MIN_COUNTS = {"quick": {"generated": {"_evaluations": 60, "with_group": 10, "forward_reference": 10, "group_chain_of_three": 10}, "faults": {"_evaluations": 50}}}
 
-PATHS = ["lines", "file", "define", "import", "cache"]
+PATHS = ["lines", "file", "define", "import", "cache", "cache_lines"]
 
 
 def tasks(tier, seed):
@@ -159,6 +159,23 @@ def run_bundled(task, tier, seed, col):
 
 # ------------------------------------------------------------------------------------- generated files
 
+def _decoy(lines):
+    """the same file with every unit factor multiplied by 7 (a different definition set with the same names)"""
+    out, block = [], None
+    for ln in lines:
+        t = ln.split("#", 1)[0].strip()
+        if t.startswith("@"):
+            block = None if t == "@end" else t.split()[0].split("(")[0]
+            out.append(ln)
+            continue
+        if block in ("@defaults", "@system") or "=" not in t or t.startswith("[") or t.split("=")[0].strip().endswith("-") or "[" in t.split("=")[1]:
+            out.append(ln)
+            continue
+        head, rest = ln.split("=", 1)
+        out.append(f"{head}= 7 * {rest.lstrip()}")
+    return out
+
+
 def load(model, path, nit, workdir):
     """Build a registry from the model through one loading path."""
     import pint
@@ -167,6 +184,15 @@ def load(model, path, nit, workdir):
     lines, extra = regmodel.render(model, permute=True, split_import=(path == "import"))
     if path == "lines":
         return pint.UnitRegistry(lines, non_int_type=T)
+    if path == "cache_lines":
+        # an iterable of lines with an on-disk cache folder that another definition set (every factor x 7) has used before
+        cdir = os.path.join(workdir, "cache_l")
+        try:
+            pint.UnitRegistry(_decoy(lines), non_int_type=T, cache_folder=cdir)
+        except Exception:  # noqa: BLE001 - the decoy only has to leave its cache files behind
+            pass
+        pint.UnitRegistry(lines, non_int_type=T, cache_folder=cdir)  # cold for these lines
+        return pint.UnitRegistry(lines, non_int_type=T, cache_folder=cdir)  # warm
     if path in ("file", "import", "cache"):
         fn = os.path.join(workdir, f"defs_{path}.txt")
         with open(fn, "w", encoding="utf-8") as fh:
@@ -261,7 +287,9 @@ def battery(ureg, model, nit, path):
         if path != "define":
             for m in sorted(want)[:2]:
                 got = {next(iter(x._units)) for x in ureg.get_compatible_units(m, g["name"])}
-                wantc = {n for n in want if res[n][1] == res[m][1]}
+                offref = {o["name"]: o["ref"] for o in model["offsets"]}
+                rdim = lambda n: res[offref.get(n, n)][1]  # noqa: E731 (an offset unit has the dimension of its reference)
+                wantc = {n for n in want if rdim(n) == rdim(m)}
                 if got != wantc:
                     raise Violation("group_compatible_units_not_as_written", f"[{path}/{nit}] get_compatible_units({m},{g['name']}) = {sorted(got)} vs {sorted(wantc)}")
     for s in model["systems"]:
@@ -315,16 +343,20 @@ def case_generated(case, col=None):
             if any(h["name"] in g["using"] and h["using"] for g in model["groups"] for h in model["groups"]):
                 col.count("group_chain_of_three")
         answers = {}
-        for path in case["paths"]:
+        paths = [p for p in case["paths"] if not (p == "define" and model.get("defaults"))] or ["lines"]
+        # (@defaults takes effect when a registry is initialised from its definitions; it has no define()-by-define() equivalent)
+        if col is not None and model.get("defaults"):
+            col.count("with_defaults")
+        for path in paths:
             s, ureg = attempt(load, model, path, case["nit"], work)
             if s == "err":
                 raise Violation(f"valid_file_refused:{path}:{exc_class(ureg)}", f"loading through {path!r} ({case['nit']}) raised {type(ureg).__name__}: {ureg}\n" + "\n".join(lines))
             answers[path] = battery(ureg, model, case["nit"], path)
-        ref = answers[case["paths"][0]]
+        ref = answers[paths[0]]
         for path, a in answers.items():
             if a != ref:
                 diff = [k for k in ref if a.get(k) != ref[k]][:3]
-                raise Violation("loading_paths_disagree", f"{case['paths'][0]} vs {path}: {diff}")
+                raise Violation("loading_paths_disagree", f"{paths[0]} vs {path}: {diff}")
     finally:
         shutil.rmtree(work, ignore_errors=True)
         logging.disable(logging.NOTSET)
